@@ -305,7 +305,7 @@ func (p LLDP) GetPDU(pduType int) []byte {
 }
 
 func (p LLDP) getTLV(n int) (t int, l int, v []byte, err error) {
-	if len(p) <= n+2 {
+	if len(p) < n+2 {
 		return 0, 0, nil, ErrParseFrame
 	}
 	t = int(p[n] >> 1) // type = 7 bits
@@ -313,7 +313,7 @@ func (p LLDP) getTLV(n int) (t int, l int, v []byte, err error) {
 	if t == 0 && l == 0 { // end of LLPDU
 		return t, l, nil, nil
 	}
-	if len(p) > n+2+int(l)+2 {
+	if len(p) >= n+2+int(l) {
 		return t, l, p[n+2 : n+2+l], nil
 	}
 	return 0, 0, nil, ErrParseFrame
